@@ -470,11 +470,28 @@ def trickle(dec, data, spec, t, rng):
         except Exception as e:  # noqa
             a = 'not-a-value:%s' % e
         # the remainder: what the stream still holds once everything has been delivered
+        closed = fed == len(chunks)
         while fed < len(chunks):
             raw.feed(chunks[fed])
             fed += 1
+        sub = sd._substrate
+        rest = sub.read(-1) or b''
+        if rest:
+            sub.seek(-len(rest), os.SEEK_CUR)
+        elif not closed:
+            # nothing follows and the end has not been signalled yet: the iterator must wait, then stop
+            try:
+                x = next(it)
+                if not isinstance(x, error.SubstrateUnderrunError):
+                    return ('err', 'at-end-open-yielded-%s' % type(x).__name__)
+                raw.close_input()
+                x = next(it)
+                return ('err', 'at-end-closed-yielded-%s' % type(x).__name__)
+            except StopIteration:
+                pass
+            except Exception as e:  # noqa
+                return ('err', 'at-end-' + codec.classify(e))
         raw.close_input()
-        rest = sd._substrate.read(-1) or b''
         return ('ok', a, rest.hex())
     return ('err', 'stuck')
 
